@@ -182,8 +182,9 @@ def _one_run(ctx, name: str, corpus: Path, runs: int, max_time: int, seed: int, 
     return stats
 
 
-def run(ctx, check_case) -> None:  # noqa: ARG001
-    """Seeded-corpus run and empty-corpus run; results go into ctx (failures) and ctx.res.extra (statistics)."""
+def run(ctx, check_case, seconds: float = 500.0) -> None:  # noqa: ARG001
+    """Seeded-corpus run (2/3 of `seconds`) and empty-corpus run (1/3); results go into ctx (failures) and
+    ctx.res.extra (statistics). -runs bounds the work on a fast machine, -max_total_time on a slow one."""
     from vp.common.harness import derive_seed
 
     if not available():
@@ -200,9 +201,9 @@ def run(ctx, check_case) -> None:  # noqa: ARG001
     empty = ctx.tmp / "corpus-empty"
     empty.mkdir(parents=True, exist_ok=True)
     seed = derive_seed(ctx.base_seed, 0, "atheris") % (2**31 - 1) + 1
-    scale = float(os.environ.get("C12_ATHERIS_SCALE", "1"))
-    s1 = _one_run(ctx, "seeded", seeded, int(600000 * scale), max(20, int(330 * scale)), seed, dict_file)
-    s2 = _one_run(ctx, "empty", empty, int(300000 * scale), max(10, int(170 * scale)), seed, dict_file)
+    seconds = float(os.environ.get("C12_ATHERIS_SECONDS", seconds))
+    s1 = _one_run(ctx, "seeded", seeded, 1500000, max(20, int(seconds * 0.62)), seed, dict_file)
+    s2 = _one_run(ctx, "empty", empty, 750000, max(10, int(seconds * 0.31)), seed, dict_file)
     ctx.res.extra["atheris"] = {"seeded_corpus": s1, "empty_corpus": s2, "seed": seed, "max_len": MAX_LEN}
 
 
